@@ -23,6 +23,7 @@ import M4riProofs.MathlibSpec
 import M4riProofs.Top
 import M4riProofs.GenTie
 import M4riProofs.GenTieRec
+import M4riProofs.GenTieGlue
 namespace M4ri.Props.C04
 open M4ri M4ri.BMat
 
@@ -111,5 +112,10 @@ theorem upper_right_solves {U B : BMat} (hUr : U.nrows = B.ncols) (hUc : U.ncols
 #check @M4ri.GenTieRec.trsmLowerLeftRec_step_base
 #check @M4ri.GenTieRec.trsmUpperLeftRec_step_base
 #check @M4ri.GenTieRec.blocksize_eq
+
+
+/-! ### tie to the C text: `mzd_trtri_upper` (64-bit regime test, SSE2 split, three windows, the two translated TRSM routines, two recursive
+    calls), `_mzd_pluq` and `_mzd_solve_left` are generated by vlib/ctrans.py on every check and proved equal to the model (GenTieGlue.lean) -/
+#check @M4ri.GenTieGlue.trtriUpperRec_step
 
 end M4ri.Props.C04
